@@ -23,7 +23,8 @@
   NewNVarStore / newNVar / parse*   TotalNvar.*                          every slice / index listed below
   Validate.Visit / File.ChecksumHeader / Extract.Visit   TotalWalk.*    f.Buf()[:HeaderLen], f.buf[:headerSize], f.Buf()[headerSize:], f.Buf()[:DataOffset]
   JSON.Visit / Table.Visit / Table.printFirmware / printRow*   —        no slice / index / make at all (theorems `sites_JSON_Visit` …)
-  Assemble.Visit / Cat.Visit        — (T2 only)                          inventory recorded so that a new site is at least visible
+  Assemble.Visit                    TotalAsm.* / TotalNvarWalk.*          every site: see the table of TotalAsmTie.lean (follow-up wp-c05b)
+  Cat.Visit                         — (T2 only)                          inventory recorded so that a new site is at least visible
 
   Map look-ups (`SupportedFiles[t]`, `FVGUIDs[g]` …) and fixed-size array indexing (`frs[RegionTypeBIOS]`,
   `size[2]`) appear in the inventories because the translator works on syntax; they cannot fault.
